@@ -1,6 +1,6 @@
 import Fv.Lemmas.Mpmc2BWakeK
-/-! Registration group `InvR` of the mpmc v2 wake-up invariants (needs the `Benign` hypothesis:
-a `RecvFuture` is not re-polled while still WAITING). Generated boilerplate, one lemma per step function. -/
+/-! Registration group `InvR` of the mpmc v2 wake-up invariants (on `ReachB`; since fix cd494c8 of finding F17
+a `RecvFuture` may be re-polled while still WAITING: `arTry` / `arReg` are registered control states). Generated boilerplate, one lemma per step function. -/
 namespace Fv.Chan.Mpmc2B
 set_option linter.unusedVariables false
 
@@ -38,9 +38,10 @@ structure InvR (s : State) : Prop where
   d2 : s.receivers = 0 → ∀ r, r ∈ s.wss ∨ r ∈ s.was → s.st r ≠ .waiting
   k4s : ∀ t r, blockS (s.pc t) = some r → s.st r = .waiting → r ∈ s.wss ∨ r ∈ s.was
   k4r : ∀ t r, blockR (s.pc t) = some r → s.st r = .waiting → r ∈ s.wsr ∨ r ∈ s.war
+  fut_wsr : ∀ t r, recvFutRec (s.pc t) = some r → r ∉ s.wsr
 
 theorem invR_init (cap : Nat) : InvR (init cap) := by
-  constructor <;> simp [init, unregA, blockS, blockR]
+  constructor <;> simp [init, unregA, blockS, blockR, recvFutRec]
 
 attribute [local grind] recOf sendSide recvFutRec unregA regAtR regAtS blockS blockR
 attribute [local grind =] nodup_snoc upd_apply bump_apply List.Nodup.mem_erase_iff
@@ -51,189 +52,189 @@ attribute [local grind cases] WS
 
 theorem invR_sTry {s : State} {t : Nat} {v : Nat} {r : Nat} (hk : InvK s) (hi : InvR s) (hpc : s.pc t = .sTry v r) : InvR (stepSTry s t v r) := by
   obtain ⟨hk1, hk2, hk3, hk4, hk5, hk6, hk7, hk8⟩ := hk
-  obtain ⟨h1, h2, h3, h4, h5, h6, h7⟩ := hi
+  obtain ⟨h1, h2, h3, h4, h5, h6, h7, h8⟩ := hi
   unfold stepSTry
   repeat' split
   wk_close
 
 theorem invR_sReg {s : State} {t : Nat} {v : Nat} {r : Nat} (hk : InvK s) (hi : InvR s) (hpc : s.pc t = .sReg v r) : InvR (stepSReg s t v r) := by
   obtain ⟨hk1, hk2, hk3, hk4, hk5, hk6, hk7, hk8⟩ := hk
-  obtain ⟨h1, h2, h3, h4, h5, h6, h7⟩ := hi
+  obtain ⟨h1, h2, h3, h4, h5, h6, h7, h8⟩ := hi
   unfold stepSReg
   repeat' split
   wk_close
 
 theorem invR_sWait {s : State} {t : Nat} {v : Nat} {r : Nat} (hk : InvK s) (hi : InvR s) (hpc : s.pc t = .sWait v r) : InvR (stepSWait s t v r) := by
   obtain ⟨hk1, hk2, hk3, hk4, hk5, hk6, hk7, hk8⟩ := hk
-  obtain ⟨h1, h2, h3, h4, h5, h6, h7⟩ := hi
+  obtain ⟨h1, h2, h3, h4, h5, h6, h7, h8⟩ := hi
   unfold stepSWait
   repeat' split
   wk_close
 
 theorem invR_sUnl {s : State} {t : Nat} {v : Nat} {r : Nat} {c : Bool} (hk : InvK s) (hi : InvR s) (hpc : s.pc t = .sUnl v r c) : InvR (stepSUnl s t v r c) := by
   obtain ⟨hk1, hk2, hk3, hk4, hk5, hk6, hk7, hk8⟩ := hk
-  obtain ⟨h1, h2, h3, h4, h5, h6, h7⟩ := hi
+  obtain ⟨h1, h2, h3, h4, h5, h6, h7, h8⟩ := hi
   unfold stepSUnl
   repeat' split
   wk_close
 
 theorem invR_tsTry {s : State} {t : Nat} {v : Nat} (hk : InvK s) (hi : InvR s) (hpc : s.pc t = .tsTry v) : InvR (stepTsTry s t v) := by
   obtain ⟨hk1, hk2, hk3, hk4, hk5, hk6, hk7, hk8⟩ := hk
-  obtain ⟨h1, h2, h3, h4, h5, h6, h7⟩ := hi
+  obtain ⟨h1, h2, h3, h4, h5, h6, h7, h8⟩ := hi
   unfold stepTsTry
   repeat' split
   wk_close
 
 theorem invR_rTry {s : State} {t : Nat} {r : Nat} (hk : InvK s) (hi : InvR s) (hpc : s.pc t = .rTry r) : InvR (stepRTry s t r) := by
   obtain ⟨hk1, hk2, hk3, hk4, hk5, hk6, hk7, hk8⟩ := hk
-  obtain ⟨h1, h2, h3, h4, h5, h6, h7⟩ := hi
+  obtain ⟨h1, h2, h3, h4, h5, h6, h7, h8⟩ := hi
   unfold stepRTry
   repeat' split
   wk_close
 
 theorem invR_rReg {s : State} {t : Nat} {r : Nat} (hk : InvK s) (hi : InvR s) (hpc : s.pc t = .rReg r) : InvR (stepRReg s t r) := by
   obtain ⟨hk1, hk2, hk3, hk4, hk5, hk6, hk7, hk8⟩ := hk
-  obtain ⟨h1, h2, h3, h4, h5, h6, h7⟩ := hi
+  obtain ⟨h1, h2, h3, h4, h5, h6, h7, h8⟩ := hi
   unfold stepRReg
   repeat' split
   wk_close
 
 theorem invR_rWait {s : State} {t : Nat} {r : Nat} (hk : InvK s) (hi : InvR s) (hpc : s.pc t = .rWait r) : InvR (stepRWait s t r) := by
   obtain ⟨hk1, hk2, hk3, hk4, hk5, hk6, hk7, hk8⟩ := hk
-  obtain ⟨h1, h2, h3, h4, h5, h6, h7⟩ := hi
+  obtain ⟨h1, h2, h3, h4, h5, h6, h7, h8⟩ := hi
   unfold stepRWait
   repeat' split
   wk_close
 
 theorem invR_rUnl {s : State} {t : Nat} {r : Nat} (hk : InvK s) (hi : InvR s) (hpc : s.pc t = .rUnl r) : InvR (stepRUnl s t r) := by
   obtain ⟨hk1, hk2, hk3, hk4, hk5, hk6, hk7, hk8⟩ := hk
-  obtain ⟨h1, h2, h3, h4, h5, h6, h7⟩ := hi
+  obtain ⟨h1, h2, h3, h4, h5, h6, h7, h8⟩ := hi
   unfold stepRUnl
   repeat' split
   wk_close
 
 theorem invR_trTry {s : State} {t : Nat} (hk : InvK s) (hi : InvR s) (hpc : s.pc t = .trTry) : InvR (stepTrTry s t ) := by
   obtain ⟨hk1, hk2, hk3, hk4, hk5, hk6, hk7, hk8⟩ := hk
-  obtain ⟨h1, h2, h3, h4, h5, h6, h7⟩ := hi
+  obtain ⟨h1, h2, h3, h4, h5, h6, h7, h8⟩ := hi
   unfold stepTrTry
   repeat' split
   wk_close
 
 theorem invR_toTry {s : State} {t : Nat} {r : Nat} (hk : InvK s) (hi : InvR s) (hpc : s.pc t = .toTry r) : InvR (stepToTry s t r) := by
   obtain ⟨hk1, hk2, hk3, hk4, hk5, hk6, hk7, hk8⟩ := hk
-  obtain ⟨h1, h2, h3, h4, h5, h6, h7⟩ := hi
+  obtain ⟨h1, h2, h3, h4, h5, h6, h7, h8⟩ := hi
   unfold stepToTry
   repeat' split
   wk_close
 
 theorem invR_toReg {s : State} {t : Nat} {r : Nat} (hk : InvK s) (hi : InvR s) (hpc : s.pc t = .toReg r) : InvR (stepToReg s t r) := by
   obtain ⟨hk1, hk2, hk3, hk4, hk5, hk6, hk7, hk8⟩ := hk
-  obtain ⟨h1, h2, h3, h4, h5, h6, h7⟩ := hi
+  obtain ⟨h1, h2, h3, h4, h5, h6, h7, h8⟩ := hi
   unfold stepToReg
   repeat' split
   wk_close
 
 theorem invR_toRetry {s : State} {t : Nat} {r : Nat} (hk : InvK s) (hi : InvR s) (hpc : s.pc t = .toRetry r) : InvR (stepToRetry s t r) := by
   obtain ⟨hk1, hk2, hk3, hk4, hk5, hk6, hk7, hk8⟩ := hk
-  obtain ⟨h1, h2, h3, h4, h5, h6, h7⟩ := hi
+  obtain ⟨h1, h2, h3, h4, h5, h6, h7, h8⟩ := hi
   unfold stepToRetry
   repeat' split
   wk_close
 
 theorem invR_toCas {s : State} {t : Nat} {r : Nat} (hk : InvK s) (hi : InvR s) (hpc : s.pc t = .toCas r) : InvR (stepToCas s t r) := by
   obtain ⟨hk1, hk2, hk3, hk4, hk5, hk6, hk7, hk8⟩ := hk
-  obtain ⟨h1, h2, h3, h4, h5, h6, h7⟩ := hi
+  obtain ⟨h1, h2, h3, h4, h5, h6, h7, h8⟩ := hi
   unfold stepToCas
   repeat' split
   wk_close
 
 theorem invR_toUnl {s : State} {t : Nat} {r : Nat} (hk : InvK s) (hi : InvR s) (hpc : s.pc t = .toUnl r) : InvR (stepToUnl s t r) := by
   obtain ⟨hk1, hk2, hk3, hk4, hk5, hk6, hk7, hk8⟩ := hk
-  obtain ⟨h1, h2, h3, h4, h5, h6, h7⟩ := hi
+  obtain ⟨h1, h2, h3, h4, h5, h6, h7, h8⟩ := hi
   unfold stepToUnl
   repeat' split
   wk_close
 
 theorem invR_toFin {s : State} {t : Nat} {r : Nat} (hk : InvK s) (hi : InvR s) (hpc : s.pc t = .toFin r) : InvR (stepToFin s t r) := by
   obtain ⟨hk1, hk2, hk3, hk4, hk5, hk6, hk7, hk8⟩ := hk
-  obtain ⟨h1, h2, h3, h4, h5, h6, h7⟩ := hi
+  obtain ⟨h1, h2, h3, h4, h5, h6, h7, h8⟩ := hi
   unfold stepToFin
   repeat' split
   wk_close
 
 theorem invR_asTry {s : State} {t : Nat} {v : Nat} {r : Nat} (hk : InvK s) (hi : InvR s) (hpc : s.pc t = .asTry v r) : InvR (stepAsTry s t v r) := by
   obtain ⟨hk1, hk2, hk3, hk4, hk5, hk6, hk7, hk8⟩ := hk
-  obtain ⟨h1, h2, h3, h4, h5, h6, h7⟩ := hi
+  obtain ⟨h1, h2, h3, h4, h5, h6, h7, h8⟩ := hi
   unfold stepAsTry
   repeat' split
   wk_close
 
 theorem invR_asReg {s : State} {t : Nat} {v : Nat} {r : Nat} (hk : InvK s) (hi : InvR s) (hpc : s.pc t = .asReg v r) : InvR (stepAsReg s t v r) := by
   obtain ⟨hk1, hk2, hk3, hk4, hk5, hk6, hk7, hk8⟩ := hk
-  obtain ⟨h1, h2, h3, h4, h5, h6, h7⟩ := hi
+  obtain ⟨h1, h2, h3, h4, h5, h6, h7, h8⟩ := hi
   unfold stepAsReg
   repeat' split
   wk_close
 
 theorem invR_asUnl {s : State} {t : Nat} {v : Nat} {r : Nat} {c : Bool} (hk : InvK s) (hi : InvR s) (hpc : s.pc t = .asUnl v r c) : InvR (stepAsUnl s t v r c) := by
   obtain ⟨hk1, hk2, hk3, hk4, hk5, hk6, hk7, hk8⟩ := hk
-  obtain ⟨h1, h2, h3, h4, h5, h6, h7⟩ := hi
+  obtain ⟨h1, h2, h3, h4, h5, h6, h7, h8⟩ := hi
   unfold stepAsUnl
   repeat' split
   wk_close
 
 theorem invR_asRef {s : State} {t : Nat} {v : Nat} {r : Nat} (hk : InvK s) (hi : InvR s) (hpc : s.pc t = .asRef v r) : InvR (stepAsRef s t v r) := by
   obtain ⟨hk1, hk2, hk3, hk4, hk5, hk6, hk7, hk8⟩ := hk
-  obtain ⟨h1, h2, h3, h4, h5, h6, h7⟩ := hi
+  obtain ⟨h1, h2, h3, h4, h5, h6, h7, h8⟩ := hi
   unfold stepAsRef
   repeat' split
   wk_close
 
 theorem invR_fdUnlS {s : State} {t : Nat} {v : Nat} {r : Nat} (hk : InvK s) (hi : InvR s) (hpc : s.pc t = .fdUnlS v r) : InvR (stepFdUnlS s t v r) := by
   obtain ⟨hk1, hk2, hk3, hk4, hk5, hk6, hk7, hk8⟩ := hk
-  obtain ⟨h1, h2, h3, h4, h5, h6, h7⟩ := hi
+  obtain ⟨h1, h2, h3, h4, h5, h6, h7, h8⟩ := hi
   unfold stepFdUnlS
   repeat' split
   wk_close
 
 theorem invR_arTry {s : State} {t : Nat} {r : Nat} (hk : InvK s) (hi : InvR s) (hpc : s.pc t = .arTry r) : InvR (stepArTry s t r) := by
   obtain ⟨hk1, hk2, hk3, hk4, hk5, hk6, hk7, hk8⟩ := hk
-  obtain ⟨h1, h2, h3, h4, h5, h6, h7⟩ := hi
+  obtain ⟨h1, h2, h3, h4, h5, h6, h7, h8⟩ := hi
   unfold stepArTry
   repeat' split
   wk_close
 
 theorem invR_arReg {s : State} {t : Nat} {r : Nat} (hk : InvK s) (hi : InvR s) (hpc : s.pc t = .arReg r) : InvR (stepArReg s t r) := by
   obtain ⟨hk1, hk2, hk3, hk4, hk5, hk6, hk7, hk8⟩ := hk
-  obtain ⟨h1, h2, h3, h4, h5, h6, h7⟩ := hi
+  obtain ⟨h1, h2, h3, h4, h5, h6, h7, h8⟩ := hi
   unfold stepArReg
   repeat' split
   wk_close
 
 theorem invR_arUnl {s : State} {t : Nat} {r : Nat} (hk : InvK s) (hi : InvR s) (hpc : s.pc t = .arUnl r) : InvR (stepArUnl s t r) := by
   obtain ⟨hk1, hk2, hk3, hk4, hk5, hk6, hk7, hk8⟩ := hk
-  obtain ⟨h1, h2, h3, h4, h5, h6, h7⟩ := hi
+  obtain ⟨h1, h2, h3, h4, h5, h6, h7, h8⟩ := hi
   unfold stepArUnl
   repeat' split
   wk_close
 
 theorem invR_fdUnlR {s : State} {t : Nat} {r : Nat} (hk : InvK s) (hi : InvR s) (hpc : s.pc t = .fdUnlR r) : InvR (stepFdUnlR s t r) := by
   obtain ⟨hk1, hk2, hk3, hk4, hk5, hk6, hk7, hk8⟩ := hk
-  obtain ⟨h1, h2, h3, h4, h5, h6, h7⟩ := hi
+  obtain ⟨h1, h2, h3, h4, h5, h6, h7, h8⟩ := hi
   unfold stepFdUnlR
   repeat' split
   wk_close
 
 theorem invR_hWake {s : State} {t : Nat} {ws : List Nat} (hk : InvK s) (hi : InvR s) (hpc : s.pc t = .hWake ws) : InvR (stepHWake s t ws) := by
   obtain ⟨hk1, hk2, hk3, hk4, hk5, hk6, hk7, hk8⟩ := hk
-  obtain ⟨h1, h2, h3, h4, h5, h6, h7⟩ := hi
+  obtain ⟨h1, h2, h3, h4, h5, h6, h7, h8⟩ := hi
   unfold stepHWake
   repeat' split
   wk_close
 
 theorem invR_sPark {s s' : State} {t : Nat} {v : Nat} {r : Nat} (hk : InvK s) (hi : InvR s) (hpc : s.pc t = .sPark v r) (h : stepSPark s t v r = some s') : InvR s' := by
   obtain ⟨hk1, hk2, hk3, hk4, hk5, hk6, hk7, hk8⟩ := hk
-  obtain ⟨h1, h2, h3, h4, h5, h6, h7⟩ := hi
+  obtain ⟨h1, h2, h3, h4, h5, h6, h7, h8⟩ := hi
   unfold stepSPark at h
   repeat' split at h
   all_goals (simp at h; try subst h)
@@ -241,7 +242,7 @@ theorem invR_sPark {s s' : State} {t : Nat} {v : Nat} {r : Nat} (hk : InvK s) (h
 
 theorem invR_rPark {s s' : State} {t : Nat} {r : Nat} (hk : InvK s) (hi : InvR s) (hpc : s.pc t = .rPark r) (h : stepRPark s t r = some s') : InvR s' := by
   obtain ⟨hk1, hk2, hk3, hk4, hk5, hk6, hk7, hk8⟩ := hk
-  obtain ⟨h1, h2, h3, h4, h5, h6, h7⟩ := hi
+  obtain ⟨h1, h2, h3, h4, h5, h6, h7, h8⟩ := hi
   unfold stepRPark at h
   repeat' split at h
   all_goals (simp at h; try subst h)
@@ -249,7 +250,7 @@ theorem invR_rPark {s s' : State} {t : Nat} {r : Nat} (hk : InvK s) (hi : InvR s
 
 theorem invR_closeS {s s' : State} {t : Nat} (hk : InvK s) (hi : InvR s) (hpc : s.pc t = .hCloseS) (h : stepCloseS s t  = some s') : InvR s' := by
   obtain ⟨hk1, hk2, hk3, hk4, hk5, hk6, hk7, hk8⟩ := hk
-  obtain ⟨h1, h2, h3, h4, h5, h6, h7⟩ := hi
+  obtain ⟨h1, h2, h3, h4, h5, h6, h7, h8⟩ := hi
   unfold stepCloseS at h
   repeat' split at h
   all_goals (simp at h; try subst h)
@@ -257,7 +258,7 @@ theorem invR_closeS {s s' : State} {t : Nat} (hk : InvK s) (hi : InvR s) (hpc : 
 
 theorem invR_closeR {s s' : State} {t : Nat} (hk : InvK s) (hi : InvR s) (hpc : s.pc t = .hCloseR) (h : stepCloseR s t  = some s') : InvR s' := by
   obtain ⟨hk1, hk2, hk3, hk4, hk5, hk6, hk7, hk8⟩ := hk
-  obtain ⟨h1, h2, h3, h4, h5, h6, h7⟩ := hi
+  obtain ⟨h1, h2, h3, h4, h5, h6, h7, h8⟩ := hi
   unfold stepCloseR at h
   repeat' split at h
   all_goals (simp at h; try subst h)
@@ -298,25 +299,26 @@ theorem invR_adv {s s' : State} {t : Nat} (hk : InvK s) (hi : InvR s) (h : stepA
   case h_28 =>
     simp at h; subst h
     obtain ⟨hk1, hk2, hk3, hk4, hk5, hk6, hk7, hk8⟩ := hk
-    obtain ⟨h1, h2, h3, h4, h5, h6, h7⟩ := hi
+    obtain ⟨h1, h2, h3, h4, h5, h6, h7, h8⟩ := hi
     wk_close
   case h_29 =>
     simp at h; subst h
     obtain ⟨hk1, hk2, hk3, hk4, hk5, hk6, hk7, hk8⟩ := hk
-    obtain ⟨h1, h2, h3, h4, h5, h6, h7⟩ := hi
+    obtain ⟨h1, h2, h3, h4, h5, h6, h7, h8⟩ := hi
     wk_close
   case h_30 => exact invR_closeS hk hi hpc h
   case h_31 => exact invR_closeR hk hi hpc h
   case h_32 =>
     simp at h; subst h
     obtain ⟨hk1, hk2, hk3, hk4, hk5, hk6, hk7, hk8⟩ := hk
-    obtain ⟨h1, h2, h3, h4, h5, h6, h7⟩ := hi
+    obtain ⟨h1, h2, h3, h4, h5, h6, h7, h8⟩ := hi
     wk_close
   case h_33 => simp at h; subst h; exact invR_hWake hk hi hpc
 
+set_option maxHeartbeats 1000000 in
 theorem invR_call {s s' : State} {t : Nat} {op : Op} (hk : InvK s) (hi : InvR s) (h : stepCall s t op = some s') : InvR s' := by
   obtain ⟨hk1, hk2, hk3, hk4, hk5, hk6, hk7, hk8⟩ := hk
-  obtain ⟨h1, h2, h3, h4, h5, h6, h7⟩ := hi
+  obtain ⟨h1, h2, h3, h4, h5, h6, h7, h8⟩ := hi
   unfold stepCall at h
   split at h
   · rename_i hr
@@ -330,7 +332,7 @@ theorem invR_call {s s' : State} {t : Nat} {op : Op} (hk : InvK s) (hi : InvR s)
 
 theorem invR_poll {s s' : State} {t : Nat} (hk : InvK s) (hi : InvR s) (hb : Benign s t .poll) (h : stepPoll s t = some s') : InvR s' := by
   obtain ⟨hk1, hk2, hk3, hk4, hk5, hk6, hk7, hk8⟩ := hk
-  obtain ⟨h1, h2, h3, h4, h5, h6, h7⟩ := hi
+  obtain ⟨h1, h2, h3, h4, h5, h6, h7, h8⟩ := hi
   unfold stepPoll at h
   repeat' split at h
   all_goals (simp at h; try subst h)
@@ -339,7 +341,7 @@ theorem invR_poll {s s' : State} {t : Nat} (hk : InvK s) (hi : InvR s) (hb : Ben
 
 theorem invR_dropFut {s s' : State} {t : Nat} (hk : InvK s) (hi : InvR s) (hb : Benign s t .dropFut) (h : stepDropFut s t = some s') : InvR s' := by
   obtain ⟨hk1, hk2, hk3, hk4, hk5, hk6, hk7, hk8⟩ := hk
-  obtain ⟨h1, h2, h3, h4, h5, h6, h7⟩ := hi
+  obtain ⟨h1, h2, h3, h4, h5, h6, h7, h8⟩ := hi
   unfold stepDropFut at h
   repeat' split at h
   all_goals (simp at h; try subst h)
@@ -348,7 +350,7 @@ theorem invR_dropFut {s s' : State} {t : Nat} (hk : InvK s) (hi : InvR s) (hb : 
 
 theorem invR_spurious {s s' : State} {t : Nat} (hk : InvK s) (hi : InvR s) (h : stepSpurious s t = some s') : InvR s' := by
   obtain ⟨hk1, hk2, hk3, hk4, hk5, hk6, hk7, hk8⟩ := hk
-  obtain ⟨h1, h2, h3, h4, h5, h6, h7⟩ := hi
+  obtain ⟨h1, h2, h3, h4, h5, h6, h7, h8⟩ := hi
   unfold stepSpurious at h
   repeat' split at h
   all_goals (simp at h; try subst h)
